@@ -3,6 +3,7 @@ package carddav
 import (
 	"encoding/xml"
 	"fmt"
+	"io"
 
 	"github.com/emersion/go-webdav/internal"
 )
@@ -209,7 +210,49 @@ func (r *reportReq) UnmarshalXML(d *xml.Decoder, start xml.StartElement) error {
 		return fmt.Errorf("carddav: unsupported REPORT root %q %q", start.Name.Space, start.Name.Local)
 	}
 
-	return d.DecodeElement(v, &start)
+	// encoding/xml matches an attribute to a struct field by its local name
+	// alone, so xmlns:name="..." or x:test="..." would be taken for the name
+	// or test attribute of the element carrying it
+	return xml.NewTokenDecoder(&unqualifiedAttrReader{d: d, start: &start}).Decode(v)
+}
+
+// unqualifiedAttrReader yields start and then the tokens of d up to the
+// matching end element. Namespace declarations and attributes which belong to
+// a namespace are left out: none of the CardDAV request elements has any.
+type unqualifiedAttrReader struct {
+	d     *xml.Decoder
+	start *xml.StartElement
+	depth int
+}
+
+func (r *unqualifiedAttrReader) Token() (xml.Token, error) {
+	var tok xml.Token
+	if r.start != nil {
+		tok, r.start = *r.start, nil
+	} else if r.depth == 0 {
+		return nil, io.EOF
+	} else {
+		var err error
+		if tok, err = r.d.Token(); err != nil {
+			return nil, err
+		}
+	}
+
+	switch tok := tok.(type) {
+	case xml.StartElement:
+		r.depth++
+		attrs := make([]xml.Attr, 0, len(tok.Attr))
+		for _, attr := range tok.Attr {
+			if attr.Name.Space == "" {
+				attrs = append(attrs, attr)
+			}
+		}
+		tok.Attr = attrs
+		return tok, nil
+	case xml.EndElement:
+		r.depth--
+	}
+	return tok, nil
 }
 
 type mkcolReq struct {
